@@ -384,7 +384,7 @@ Qed.
 (* ---------- copy, as used by Props ---------- *)
 Lemma state_copy_props (num_text : float -> string) s :
   state_eq num_text (state_copy s) s = true /\ state_eq num_text s (state_copy s) = true /\
-  serialize num_text (state_copy s) = serialize num_text s.
+  serialize_in_order num_text (state_copy s) = serialize_in_order num_text s.
 Proof. rewrite state_copy_id. repeat split; apply state_eq_refl. Qed.
 
 (* ---------- adding a fact, seen through any function that equal set members agree on ---------- *)
